@@ -86,22 +86,23 @@ MECH_FUNCS = [
 def plan(tier: str, seed: int) -> list[dict]:
     q = tier == "quick"
     tmo = 500 if q else 2700
-    specs = []
-    for i in range(7 if q else 10):
+    # the short shard first and bip85 last: with 16 workers the 17th/18th shard of the thorough tier starts when
+    # derpath has finished, not after a full-budget shard
+    specs = [{"name": "derpath", "fn": "shard_derpath", "n": 1500 if q else 40000,
+              "_budget_s": 40 if q else 500, "_timeout_s": tmo}]
+    for i in range(7 if q else 8):
         specs.append({"name": f"derive-{i}", "fn": "shard_derive", "part": i, "max_depth": 12 if q else 20,
-                      "n": 100000, "_budget_s": 62 if q else 840, "_timeout_s": tmo})
-    for i in range(2 if q else 3):
+                      "n": 10**9, "_budget_s": 62 if q else 780, "_timeout_s": tmo})
+    for i in range(2):
         specs.append({"name": f"deep-{i}", "fn": "shard_deep", "part": i,
-                      "_budget_s": 50 if q else 800, "_timeout_s": tmo})
-    for i in range(2 if q else 3):
+                      "_budget_s": 50 if q else 780, "_timeout_s": tmo})
+    for i in range(2):
         specs.append({"name": f"inject-{i}", "fn": "shard_inject", "part": i,
-                      "_budget_s": 55 if q else 800, "_timeout_s": tmo})
-    specs.append({"name": "versions", "fn": "shard_versions", "_budget_s": 55 if q else 800, "_timeout_s": tmo})
-    specs.append({"name": "bip44", "fn": "shard_bip44", "_budget_s": 50 if q else 700, "_timeout_s": tmo})
+                      "_budget_s": 55 if q else 780, "_timeout_s": tmo})
+    specs.append({"name": "versions", "fn": "shard_versions", "_budget_s": 55 if q else 700, "_timeout_s": tmo})
+    specs.append({"name": "bip44", "fn": "shard_bip44", "_budget_s": 50 if q else 600, "_timeout_s": tmo})
     specs.append({"name": "account", "fn": "shard_account", "_budget_s": 45 if q else 600, "_timeout_s": tmo})
-    specs.append({"name": "derpath", "fn": "shard_derpath", "n": 1500 if q else 40000,
-                  "_budget_s": 40 if q else 500, "_timeout_s": tmo})
-    specs.append({"name": "bip85", "fn": "shard_bip85", "_budget_s": 45 if q else 600, "_timeout_s": tmo})
+    specs.append({"name": "bip85", "fn": "shard_bip85", "_budget_s": 45 if q else 450, "_timeout_s": tmo})
     return specs
 
 
